@@ -444,6 +444,24 @@ def check_c10(tier: str) -> int:
                 T.push_ac_status(rig, dataclasses.replace(inst.ac_status[spec.number], error_code=code))
                 T.push_error(rig, spec.number, text)
                 compare(rig, {"gen": gen, "frame": f"error code {code} text {text!r}"})
+            # error text against a console that leaves the client's error-text requests unanswered: a text is shown only
+            # while an error code is present, and a text received earlier never comes back with a later error
+            rig.console.mute = {"error_info"}
+            base = dataclasses.replace(inst.ac_status[spec.number], error_code=0)
+            seqs = [[("status", 0, 1), ("text", "stale"), ("status", 0, 2), ("status", 7, 3)],
+                    [("status", 5, 1), ("text", "E5"), ("status", 0, 2), ("status", 0, 3), ("status", 6, 4)],
+                    [("status", 0, 1), ("text", "early"), ("status", 9, 2)],
+                    [("status", 5, 1), ("text", "E5"), ("status", 6, 2), ("status", 0, 3), ("text", "late"), ("status", 0, 4), ("status", 5, 5)]]
+            for seq in seqs:
+                for ev in seq:
+                    ck.count()
+                    dist[f"at{gen}_error_text_sequences"] += 1
+                    if ev[0] == "status":
+                        T.push_ac_status(rig, dataclasses.replace(base, error_code=ev[1], set_point=(base.set_point + ev[2]) if gen == 4 else round(base.set_point * 10 + ev[2]) / 10.0))
+                    else:
+                        T.push_error(rig, spec.number, ev[1])
+                    compare(rig, {"gen": gen, "frame": f"error-text sequence {seq} at {ev} (console does not answer error-text requests)"})
+            rig.console.mute = set()
             for z in list(inst.zones):
                 for _ in range(40 if tier == "quick" else 400):
                     ck.count()
@@ -473,6 +491,9 @@ def check_c10(tier: str) -> int:
                 if inst.ac_status[a.number].error_code:
                     text = inst.errors.get(a.number)
                     rig.client_err[a.number] = text.encode() if text else None
+            if rng.random() < 0.4:
+                rig.console.mute = {"error_info"}          # from now on the console leaves error-text requests unanswered
+                dist[f"at{gen}_histories_without_error_text_answers"] += 1
             ck.count()
             dist[f"at{gen}_state_after_init"] += 1
             if not compare(rig, {"gen": gen, "frame": "(none: state right after init; ACs in fault at connect: %s)"
@@ -490,9 +511,11 @@ def check_c10(tier: str) -> int:
                         if inst.ac_status.get(st.ac_number) != st:
                             if st.error_code == 0:
                                 rig.client_err[st.ac_number] = None
-                            else:       # the client asks for the error text; the console answers with what it holds
+                            elif "error_info" not in rig.console.mute:
+                                # the client asks for the error text; the console answers with what it holds
                                 text = inst.errors.get(st.ac_number)
                                 rig.client_err[st.ac_number] = text.encode() if text else None
+                            # (unanswered: the client keeps whatever text it holds)
                         inst.ac_status[st.ac_number] = st
                     msg = inst.wrap(inst.m["astat"].AcStatusMessage(unknown + sts + unknown))
                 elif k == 1 and inst.zones:
